@@ -33,7 +33,7 @@ type c18Case struct {
 var c18Fns = []string{"Memchr", "Memchr2", "Memchr3", "MemchrPair", "Memmem", "MemchrDigit", "MemchrDigitAt", "MemchrWord", "MemchrNotWord", "MemchrInTable", "MemchrNotInTable", "IsASCII", "CountNonASCII", "FirstNonASCII"}
 
 type c18 struct {
-	region *guard.Region
+	pool guard.Pool
 }
 
 func NewC18() core.Property { return &c18{} }
@@ -243,19 +243,7 @@ func (c *c18Case) call(h, needle []byte, table *[256]bool) any {
 	return nil
 }
 
-func (p *c18) reg(size int) *guard.Region {
-	if p.region == nil || size > (1<<20)+4096 {
-		r, err := guard.New(max(size, (1<<20)+8192))
-		if err != nil {
-			panic(err)
-		}
-		if p.region != nil {
-			p.region.Free()
-		}
-		p.region = r
-	}
-	return p.region
-}
+func (p *c18) reg(size int) *guard.Region { return p.pool.For(size) }
 
 func (p *c18) Run(ci any, env *core.Env) *core.Failure {
 	c := ci.(*c18Case)
@@ -285,10 +273,11 @@ func (p *c18) runCase(c *c18Case, env *core.Env, stats bool) *core.Failure {
 		h = r.AtEnd(buf, c.Slack)
 	}
 	// the needle gets its own flush placement inside the same region when it fits before h
-	r.ReadOnly()
+	// No mprotect toggling here (it dominates the run time when 16 workers do it per
+	// case): over-reads and over-writes hit the inaccessible neighbour pages, and a write
+	// into the buffer itself is caught by the content comparison below.
 	var got any
 	msg, pan := guard.Call(func() { got = c.call(h, needle, &table) })
-	r.Writable()
 	if stats {
 		env.Count("fn", c.Fn)
 		hit := false
